@@ -28,7 +28,7 @@ CHECKS = {
     "C02": {"parts": [FLOW, preempt(["pkg/connector/source.go", "pkg/connector/persister.go"])]},
     "C03": {"parts": [FLOW]},
     "C04": {"parts": [FLOW, preempt(V1_POINTS + ["pkg/lifecycle/stream/fanout.go"])]},
-    "C06": {"parts": [FLOW, PREEMPT]},
+    "C06": {"parts": [FLOW, preempt(V1_POINTS + V2_POINTS + ["pkg/connector/source.go", "pkg/connector/persister.go"])]},
     "C07": {"rule": "window arithmetic: every window size and threshold 0..5 (0..6 thorough) x every outcome sequence up to length 10/9 (14/12) x every batch partition (v2) on the real dlqWindow of both engines and, through the exported handlers, sizes 0..3 (0..5) x length 7 (10) against one reference; routing: schedules of the scripted plugins on the real full stack",
             "parts": [FLOW,
                       {"name": "window-v1", "pkg": "pkg/lifecycle/stream", "harness": "c07w1", "run": "^TestVerifC07WindowV1$"},
